@@ -115,24 +115,25 @@ def control_deps(fn):
                 if b != s and b in pdom[s]:
                     continue
                 direct[b].setdefault(s, set()).add(lab)
-    # transitive closure
-    closure = {}
-
-    def close(b, stack=()):
-        if b in closure:
-            return closure[b]
-        closure[b] = {}
-        acc = {}
-        for s, labs in direct.get(b, {}).items():
-            acc.setdefault(s, set()).update(labs)
-            if s != b and s not in stack:
-                for s2, l2 in close(s, stack + (b,)).items():
-                    # inherited through another condition: the outcomes of s2 that lead to that condition
-                    acc.setdefault(s2, set()).update(l2)
-        closure[b] = acc
-        return acc
-    for b in list(direct):
-        close(b)
+    # transitive closure (least fixpoint; loops make the relation cyclic): a block inherits, from every condition it
+    # depends on, the conditions that one depends on, with the outcomes that lead to that condition
+    closure = {b: {s: set(l) for s, l in d.items()} for b, d in direct.items()}
+    changed = True
+    while changed:
+        changed = False
+        for b in sorted(closure):
+            acc = closure[b]
+            for s in sorted(list(acc)):
+                if s == b:
+                    continue
+                for s2, l2 in closure.get(s, {}).items():
+                    cur = acc.get(s2)
+                    if cur is None:
+                        acc[s2] = set(l2)
+                        changed = True
+                    elif not l2 <= cur:
+                        cur |= l2
+                        changed = True
     return closure, direct
 
 
